@@ -23,7 +23,7 @@ def minorFilterFn (g : GeneView) (p : ProfileV) (lastCn : CNSol) (considered : L
   let inInteresting := match r with
     | some (_, name) => (name.toList.head? == some 'e') || name == "utr3" || name == "utr5" || name == "up"
     | none => false
-  if m.op != "_" && !(considered.contains m || inInteresting) then .keep false
+  if !Const.MINOR_FILTER_DEPTH_OPS.contains m.op && !(considered.contains m || inInteresting) then .keep false
   else
     let c1 := c.basicFilter p m (some p.cnMax) none
     if m.op != "_" then .keep (c1 && c.basicFilter p m (some ((lastCn.positionCn g m.pos : Rat) + Const.MINOR_FILTER_CN_ADD)) none)
